@@ -98,9 +98,10 @@ def validJ (re : Regex) : Nat → Defs → Schema → Json → Bool
       match v with
       | .obj kvs =>
         req.all (fun k => hasKey kvs k) &&
-        kvs.all (fun kv => match props.lookup kv.1 with
-          | some ps => validJ re f defs ps kv.2
-          | none => addl != .forbid)
+        props.all (fun p => match kvs.lookup p.1 with
+          | some x => validJ re f defs p.2 x
+          | none => true) &&
+        (addl != .forbid || kvs.all (fun kv => (props.map (·.1)).contains kv.1))
       | _ => false
     | .dict value =>
       match v with
